@@ -545,7 +545,9 @@ class Executor:
                 self.obligations.append(Obligation(name=f"{self.contract.prefix}.{name.replace(':', '.')}#{self.counter[name]}", function=self.contract.qualname, status=DISCHARGED if status != "unsat" else VIOLATED, backend="z3", kind="canary",
                                                    formula="the definitions the specification is stated over are satisfiable", detail=""))
                 continue
-            self.oblige(state, goal, f"{self.contract.prefix}.post.{name}", f"ensures {name} at return (line {getattr(fn, 'lineno', '?')})")
+            ok = self.oblige(state, goal, f"{self.contract.prefix}.post.{name}", f"ensures {name} at return (line {getattr(fn, 'lineno', '?')})")
+            if ok and getattr(self.contract, "chain_ensures", False):
+                state.assume(goal)  # cut rule: a clause that is proved may be used for the clauses after it
 
     def at_raise(self, state, exc):
         self.path_count += 1
